@@ -12,6 +12,7 @@ import (
 	"sync"
 	"time"
 
+	"github.com/Dash-Industry-Forum/livesim2/internal/vhook"
 	m "github.com/Eyevinn/dash-mpd/mpd"
 	"github.com/Eyevinn/mp4ff/avc"
 	"github.com/Eyevinn/mp4ff/hevc"
@@ -289,6 +290,7 @@ func (ch *channel) addChunkData(rsd recSegData) {
 }
 
 func (ch *channel) receivedSegData(rsd recSegData) {
+	defer vhook.Event("recv.processed", ch.name, rsd.name, rsd.seqNr, rsd.chunkNr, rsd.isComplete)
 	log := slog.Default().With("chName", ch.name, "trName", rsd.name, "seqNr", rsd.seqNr)
 	if _, ok := ch.trDatas[rsd.name]; !ok {
 		log.Error("received segData for unknown track")
